@@ -61,6 +61,12 @@ impl FixtureDatabase {
                         return true;
                     }
                 }
+                Stmt::AsyncFor(for_stmt) => {
+                    if self.contains_yield(&for_stmt.body) || self.contains_yield(&for_stmt.orelse)
+                    {
+                        return true;
+                    }
+                }
                 Stmt::While(while_stmt) => {
                     if self.contains_yield(&while_stmt.body)
                         || self.contains_yield(&while_stmt.orelse)
@@ -73,12 +79,23 @@ impl FixtureDatabase {
                         return true;
                     }
                 }
+                Stmt::AsyncWith(with_stmt) => {
+                    if self.contains_yield(&with_stmt.body) {
+                        return true;
+                    }
+                }
                 Stmt::Try(try_stmt) => {
                     if self.contains_yield(&try_stmt.body)
                         || self.contains_yield(&try_stmt.orelse)
                         || self.contains_yield(&try_stmt.finalbody)
                     {
                         return true;
+                    }
+                    for handler in &try_stmt.handlers {
+                        let rustpython_parser::ast::ExceptHandler::ExceptHandler(h) = handler;
+                        if self.contains_yield(&h.body) {
+                            return true;
+                        }
                     }
                 }
                 _ => {}
